@@ -312,15 +312,21 @@ def _gen_tree(rng, nest, top=True, p_bad=0.04, p_share=0.12):
                        and en['e']['state'] != 'dead']
             if earlier and rng.random() < p_share:
                 # the SAME exception object once more: raised again elsewhere and wrapped again (a second
-                # RemoteException with a different text around one object), or the bare object twice
-                entries.append(dict(t=t, share=rng.choice(earlier), depth=rng.randint(1, 4)))
+                # RemoteException with a different text around one object), or the bare object twice, or
+                # (same=True) the very same RemoteException instance in two slots
+                entries.append(dict(t=t, share=rng.choice(earlier), depth=rng.randint(1, 4), same=rng.random() < 0.25))
+                continue
+            if rng.random() < p_share / 3:
+                # an exception object built anywhere earlier in this case (another nesting level)
+                entries.append(dict(t=t, xshare=rng.randrange(1 << 16), depth=rng.randint(1, 4), e=_gen_leaf(rng, 'live', 0)))
                 continue
             sub = _gen_tree(rng, nest - 1 if rng.random() < 0.45 else 0, top=False, p_bad=p_bad, p_share=p_share)
             if t == 'exc' and rng.random() < p_bad * 3:
                 sub['state'] = 'dead'       # a nested exception object without any traceback: ValueError expected
             entries.append(dict(t=t, e=sub))
         return dict(ens=entries, n=rng.randint(0, max(1, len(entries))), depth=rng.randint(1, 4),
-                    chain=rng.choice(['none', 'none', 'cause']), chain_depth=1, state=state, argseed=0, cls=-1)
+                    chain=rng.choice(['none', 'none', 'cause']), chain_depth=1, state=state, argseed=0, cls=-1,
+                    sub=rng.random() < 0.15)
     leaf = _gen_leaf(rng, state)
     return leaf
 
@@ -462,6 +468,10 @@ class HarnessError(Exception):
 
 
 class _Unpicklable(Exception):
+    pass
+
+
+class SubEnsembleError(EnsembleError):      # a user subclass takes the same paths (isinstance tests, __reduce__)
     pass
 
 
@@ -637,8 +647,17 @@ def build(spec, info):
             if 'share' in ent:
                 m = objs[ent['share']]
                 info['shared'] = info.get('shared', 0) + 1
+                if ent['t'] == 'rem' and ent.get('same') and isinstance(entries[ent['share']], RemoteException):
+                    objs.append(m)
+                    entries.append(entries[ent['share']])     # one RemoteException instance in two slots
+                    continue
                 if ent['t'] == 'rem':
                     m = raise_and_catch(m, ent['depth'])      # same object, raised again at another site
+            elif 'xshare' in ent and info['objs']:
+                m = info['objs'][ent['xshare'] % len(info['objs'])]
+                info['shared'] = info.get('shared', 0) + 1
+                if ent['t'] == 'rem':
+                    m = raise_and_catch(m, ent['depth'])
             else:
                 m = build(ent['e'], info)
             objs.append(m)
@@ -650,8 +669,9 @@ def build(spec, info):
                     entries.append(m)      # a nested exception without traceback deeper down: keep the bare object
             else:
                 entries.append(m)
-        exc = EnsembleError({'y': entries, 'n': spec['n']})
-        info['classes']['EnsembleError'] = info['classes'].get('EnsembleError', 0) + 1
+        ecls = SubEnsembleError if spec.get('sub') else EnsembleError
+        exc = ecls({'y': entries, 'n': spec['n']})
+        info['classes'][ecls.__name__] = info['classes'].get(ecls.__name__, 0) + 1
     else:
         name, maker = MAKERS[spec['cls']]
         exc = maker(random.Random(spec['argseed']))
@@ -678,17 +698,19 @@ def build(spec, info):
             exc = pickle.loads(pickle.dumps(RemoteException(exc)))
         except ValueError:
             pass                       # a traceback-less exception nested deeper down: stays as raised
+    info['objs'].append(exc)
     return exc
 
 
 def run_case(case):
     T = _Tables()
-    info = dict(classes={}, unpicklable=[])
+    info = dict(classes={}, unpicklable=[], objs=[])
     res = dict(monitors=[], hops=[], events=[], origin=None, pieces=None, names=None, okq=None, info=info)
     saved_name = multiprocessing.current_process().name
     try:
         return _run_case(case, T, info, res)
     finally:
+        info.pop('objs', None)           # live objects: not part of the result
         multiprocessing.current_process().name = saved_name
 
 
